@@ -25,7 +25,7 @@ var genLine = regexp.MustCompile(`-out=(\S+)\s+gen\s+"([^"]+)"`)
 
 func runC20(c *Ctx) {
 	w := c.W
-	c.Doc("R20.1", "each gen_*.go pagination function equals connection_template.go's NameCon under the substitution declared on its go:generate line (AST printed without comments)")
+	c.Doc("R20.1", "every go:generate line of connections.go has its generated pagination function; a copy that differs textually from connection_template.go's NameCon under its substitution is noted for information (a harmless hand edit must not alarm) — the template and every copy are each decided by R20.2–R20.6")
 	c.Doc("R20.2", "slices bounded by *input.First / *input.Last are dominated by the non-negative edge of the '< 0 → error' test and by len(edges) > n")
 	c.Doc("R20.3", "suffix truncation sets HasNextPage, prefix truncation sets HasPreviousPage; StartCursor/EndCursor are cursors[0]/cursors[len-1] under len>0; totalCount = len(source parameter)")
 	c.Doc("R20.4", "CursorToOffset fails on undecodable input; OffsetToCursor and CursorToOffset share the cursor prefix constant")
@@ -117,7 +117,9 @@ func runC20(c *Ctx) {
 				if hiW > len(want) {
 					hiW = len(want)
 				}
-				c.Violate("R20.1", key, w.Pos(fd.Pos()), fmt.Sprintf("differs from the template under its substitution: generated has …%s… where the template gives …%s… (a fix to one of them was not propagated: this list pages differently from the others)", got[lo:hiG], want[lo:hiW]))
+				// a textual difference is not a verdict: the copy may have been edited in a behaviour-preserving way.
+				// Every copy is decided on its own by R20.2–R20.6 below; the difference is reported for information.
+				c.Info("R20.1", key, w.Pos(fd.Pos()), fmt.Sprintf("differs textually from the template under its substitution (…%s… vs …%s…); the copy is checked on its own by R20.2–R20.6", got[lo:hiG], want[lo:hiW]))
 			} else {
 				c.Hold("R20.1", key, w.Pos(fd.Pos()), "equals the template under "+m[2])
 			}
@@ -543,9 +545,27 @@ func checkSourcesOrdered(c *Ctx) {
 			for _, sc := range Calls(fn) {
 				if (sc.Name == "sort.Slice" || sc.Name == "sort.SliceStable" || sc.Name == "sort.Sort" || sc.Name == "sort.Strings") && instrDominates(sc.Instr, cl.Instr) {
 					a := stripConv(sc.Args()[0])
-					if a == src || sameSlice(a, src) {
+					if (a == src || sameSlice(a, src)) && lessNotTotal(sc) == "" {
 						sortedHere = true
 					}
+				}
+			}
+			// or sorted by a same-package helper that sorts the slice it is handed
+			if at, sorted, less, _ := findSliceSort(fn); !sortedHere && at != nil && sorted != nil && less != nil && instrDominates(at, cl.Instr) {
+				if sorted == src || sameSlice(sorted, src) {
+					total := true
+					for _, r := range Returns(less) {
+						if bo, isBo := r.Results[0].(*ssa.BinOp); isBo {
+							for _, side := range []ssa.Value{bo.X, bo.Y} {
+								if cv, isCall := stripConv(side).(*ssa.Call); isCall {
+									if n, _ := callName(cv.Common()); !strings.HasSuffix(n, ".Id") && !strings.HasSuffix(n, ".String") {
+										total = false
+									}
+								}
+							}
+						}
+					}
+					sortedHere = total
 				}
 			}
 			if sortedHere {
